@@ -90,6 +90,29 @@ def sweep_cases(ctx: core.Ctx, rnd: random.Random, gens: list, repeats: int, *, 
                 for kind in ("code", "ownheader"):
                     add(fname, sname, kind, by_name["B9"], {"template": tmpl}, "rep:" + fname, must=False)
         add("sample.py", "python", "ownheader", by_name["B1"], {"no_replace": True}, "rep:sample.py")
+        # a holder that ends in blank + the mirror image of the style's line prefix reads back without it (the reader strips
+        # an ASCII-art frame): the tool may refuse, but must not write it and report success
+        for fname, sname, mark, fl in (("sample.py", "python", "#", {}), ("sample.c", "c", "*", {}), ("sample.cpp", "cpp", "//", {}),
+                                       ("sample.hs", "haskell", "--", {}), ("sample.lisp", "lisp", ";;;", {}),
+                                       ("sample.tex", "tex", "%", {}), ("sample.cpp", "cpp", "*", {"multi_line": True})):
+            for kind in ("code", "ownheader"):
+                add(fname, sname, kind, by_name["B1"], fl, "rep:" + fname, must=False)
+                cases[-1]["steps"] = [dict(st_, req=dict(st_["req"], holders=["Mirror Corp " + mark])) for st_ in cases[-1]["steps"]]
+                cases[-1]["label"] = anncases.label(file=fname, entry="mirrored-prefix-holder", body=kind, mark=mark, flavour=fl)
+        # --recursive over directories in which one file already has a .license sibling: the request belongs into the sibling
+        side = "SPDX-FileCopyrightText: 2000 Sidecar Holder\n\nSPDX-License-Identifier: Zlib\n"
+        rfiles = [{"name": "x/a.py", "kind": "code", "style_name": "python", "eol": "\n"},
+                  {"name": "x/b.py", "kind": "code", "style_name": "python", "eol": "\n", "dotlicense": side},
+                  {"name": "x/deep/c.rs", "kind": "ownheaderC", "style_name": "cpp", "eol": "\n"},
+                  {"name": "y/d.html", "kind": "code", "style_name": "html", "eol": "\n", "dotlicense": side}]
+        for b in singles:
+            for cli in (["x", "y"], ["y", "x"], ["."]):
+                seed = f"{ctx.seed}|rec|{len(cases)}"
+                names = [f["name"] for f in rfiles]
+                steps = [dict(anncases.step_of(b, rnd, names, {"extra": ["--recursive"]}, must=True, pick_seed=seed), cli_targets=cli)
+                         for _ in range(repeats)]
+                cases.append({"tid": len(cases) + 1, "steps": steps, "files": rfiles,
+                              "label": anncases.label(files=names, cli=cli, bundle=b["name"], entry="recursive-with-sidecar")})
         # one invocation over several files with different pre-existing headers (each keeps its own, gets the request)
         trios = [[("a.py", "python", "ownheaderA"), ("b.py", "python", "ownheaderB"), ("c.py", "python", "code")],
                  [("a.c", "c", "ownheaderA"), ("b.html", "html", "ownheaderB"), ("c.py", "python", "ownheaderC")],
